@@ -324,7 +324,21 @@ class History:
             # creation order the server must not accept
             self.ctx.count('create.out-of-order')
             self.create_one(early)
-        for i in order:
+        # now and then the hierarchy is queried while it is being built: the
+        # answers must follow the classes that exist at that moment, also
+        # for a subtree that was asked about before and has grown since
+        probes = set()
+        if len(order) > 2 and self.rng.random() < 0.5:
+            probes = set(self.rng.sample(range(1, len(order)),
+                                         min(len(order) - 1,
+                                             self.rng.choice([1, 2, 3]))))
+        for n, i in enumerate(order):
+            if n in probes and self.live:
+                self.ctx.count('queried-while-building')
+                self.check_names_all('mid-build')
+                live = sorted(self.live)
+                self.check_enums([None] + self.rng.sample(
+                    live, min(len(live), 3)))
             self.create_one(i)
 
     def build_mof(self, idxs, with_quals):
